@@ -47,6 +47,40 @@ def check_basis_objects(ctx, pid, rng):
                              replay={**rep, "order": order, "sequence": sname}, has_input=True)
 
 
+def check_estimate_then_run(ctx, pid, rng):
+    """estimate_basis_size() before run() on one basis-set object (with and without cutoff; supercells with a lattice translation of
+    order 3): the estimate is a read-only query, the basis computed afterwards is the one of a fresh object."""
+    from symfc.basis_sets import FCBasisSetO2, FCBasisSetO3, FCBasisSetO4
+    from reference import min_image_distances
+
+    for cname, diag in [("cscl", (3, 2, 1)), ("tri2_P1", (3, 1, 1))] + ([] if ctx.quick else [("hcp", (3, 1, 1)), ("mono_P", (1, 3, 1)), ("tri1", (4, 1, 1))]):
+        sc = make_supercell(base_cells()[cname], diag, rng=rng, shuffle=True)
+        N = len(sc["numbers"])
+        at = atoms_of(sc)
+        dist = min_image_distances(np.asarray(sc["lattice"], float), np.asarray(sc["positions"], float))
+        shells = sorted(set(np.round(dist[dist > 1e-8], 6).tolist()))
+        cuts = [None] + ([(shells[len(shells) // 2 - 1] + shells[len(shells) // 2]) / 2] if len(shells) >= 2 else [])
+        for cls, order in ((FCBasisSetO2, 2), (FCBasisSetO3, 3), (FCBasisSetO4, 4)):
+            if N ** order * 3 ** order > 200000:
+                continue
+            for cut in cuts:
+                try:
+                    fresh = _span(cls(at, cutoff=cut).run())
+                    obj = cls(at, cutoff=cut)
+                    obj.estimate_basis_size()
+                    obj.run()
+                except (ValueError, IndexError):
+                    ctx.count("basis-object-sequence-raised")
+                    continue
+                got = _span(obj)
+                ctx.case({"cell": sc["name"], "order": order, "cutoff": None if cut is None else round(cut, 4), "basis_object_sequence": "estimate_basis_size, run"}, nontrivial=fresh.shape[1] > 0)
+                ctx.count("estimate-then-run")
+                if got.shape[1] != fresh.shape[1] or not same_span(got, fresh)[0]:
+                    ctx.fail("oracle", f"{pid}/oracle/estimate-then-run/order{order}", f"{sc['name']} cutoff={cut}: FCBasisSetO{order} after estimate_basis_size() and run() holds {got.shape[1]} basis vectors, run() alone gives {fresh.shape[1]}: "
+                             "the size estimate changed the object",
+                             replay={"cell": sc["name"], "lattice": sc["lattice"].tolist(), "positions": sc["positions"].tolist(), "numbers": [int(x) for x in sc["numbers"]], "order": order, "cutoff": cut}, has_input=True)
+
+
 def check_handover_then_compute(ctx, pid, rng):
     """A basis set of one order built by another object from a proper SUBGROUP of operations (translations only / proper rotations only)
     is handed to an object created without operations; a different order computed afterwards on the receiving object must be the
